@@ -6,6 +6,7 @@ from ..report import AnalysisError
 from ..srcmodel import unparse, norm, walk_no_nested, calls_in
 from .common import is_method_call, recv_of
 from . import mergerules as mr
+from . import unitrules
 from . import pathrules as pr
 from .tagtable import check_flag_tags
 
@@ -20,6 +21,7 @@ DECIDED = [
     'R5: !clear fetches the node at its own absolute path from the merge root, empties it and returns that same object.',
     'R7: type promotion table (_maybe_promote) over all pairs of node classes: the more specific kind survives, is emptied and refilled from the winner with the conversion matching the two built-in bases (list <- mapping: values(); mapping <- list: enumerate()), attributes copied from the winner.',
     'R6: !del / !merge constructors set exactly delete=True / False on a plain node.',
+    'R8: ClearNode(value) evaluated: !clear accepts no argument (ValueError for any value other than None) and constructs its base exactly once.',
 ]
 UNDECIDED = ['interplay of three-level flag inheritance with concrete data.']
 
@@ -92,11 +94,13 @@ def check(repo, run, tier):
     g(r5, repo, run)
     g(check_flag_tags, repo, run, 'C04.R6', tags={'!del', '!merge'})
     g(mr.promotion_table, repo, run, 'C04.R7')
+    g(unitrules.clear_init, repo, run, 'C04.R8')
     g.done()
 
 
 def mutants(repo):
     return [
+        Mutant('clear-accepts-arguments', lambda r: in_func(r, 'ClearNode.__init__', "if value is not None:", "if value is None:"), ['C04.R8']),
         Mutant('F5-reverted-absolute-lookup-in-other', lambda r: in_func(r, 'ComposedNode.ayns.on_merge_impl', "get_first_not_missing_node(path[_prefix_len:])", "get_first_not_missing_node(path)"), ['C04.R1']),
         Mutant('prefilter-absolute-prefix', lambda r: in_func(r, 'ConfigList.ayns.on_merge_impl', "other.ayns.filter_nodes(keep_if_exists)", "other.ayns.filter_nodes(keep_if_exists, prefix=prefix)"), ['C04.R1']),
         Mutant('append-relative-on-root', lambda r: in_func(r, 'AppendNode.ayns.on_premerge_impl', "into.ayns.remove_node(path)", "into.ayns.remove_node(path[len(path):])"), ['C04.R1']),
